@@ -8,11 +8,11 @@ package serializer
 
 import (
 	"bytes"
-	"strings"
 	"encoding/json"
 	"fmt"
 	"os"
 	"sort"
+	"strings"
 	"testing"
 
 	"github.com/google/licenseclassifier"
@@ -33,7 +33,7 @@ func TestVerifArchiveReplay(t *testing.T) {
 	var samples []json.RawMessage
 	vuVectors(os.Getenv("VERIF_IN"), func(raw []byte) bool {
 		var v struct {
-			Files   [][2]string `json:"files"`
+			Files   [][3]string `json:"files"`
 			Keys    []string    `json:"keys"`
 			Empties []string    `json:"empties"`
 		}
@@ -50,7 +50,7 @@ func TestVerifArchiveReplay(t *testing.T) {
 		kind := map[string]string{}
 		var names []string
 		for _, f := range v.Files {
-			fn := f[0]
+			fn := f[2] + f[0]
 			if f[1] != "other" {
 				fn += ".txt"
 			}
@@ -107,7 +107,7 @@ func TestVerifArchiveReplay(t *testing.T) {
 			// every registered, non-empty license is found by its own text
 			for _, f := range v.Files {
 				if f[1] == "lic" || f[1] == "hdr" {
-					m := l.NearestMatch(fmt.Sprintf(content[f[1]], f[0]+".txt"))
+					m := l.NearestMatch(fmt.Sprintf(content[f[1]], f[2]+f[0]+".txt"))
 					wantName := f[0]
 					if f[1] == "hdr" {
 						wantName = f[0][:len(f[0])-len(".header")]
@@ -131,7 +131,7 @@ func TestVerifArchiveReplay(t *testing.T) {
 }
 
 // kindOfTwin: a license and its .header sibling share the reported name (the suffix is trimmed)
-func kindOfTwin(files [][2]string, name string) string {
+func kindOfTwin(files [][3]string, name string) string {
 	for _, f := range files {
 		if f[0] == name+".header" || f[0] == name {
 			return f[1]
